@@ -6,7 +6,7 @@ COQ = '/verif/coq'
 HEADER = '''From Coq Require Import ZArith List Bool Arith Lia.
 From QV Require Import Core.Bits Core.Pauli Core.Symp Core.Code Core.Span Core.Rank Core.Dist Core.DistCSS Generated.LatticeArith.
 From QV Require Import Lattice.Basic Lattice.Planar Lattice.Toric Lattice.PlanarBounded Lattice.ToricBounded Lattice.PlanarAll Lattice.ToricAll Lattice.PlanarRankAll Lattice.ToricPathWeightAll Lattice.PlanarDistAll.
-From QV Require Import Lattice.RotPlanar Lattice.RotToric Lattice.Color Lattice.RotPlanarAll Lattice.RotPlanarBounded Lattice.RotToricBounded Lattice.ColorBounded.
+From QV Require Import Lattice.RotPlanar Lattice.RotToric Lattice.Color Lattice.RotPlanarAll Lattice.RotPlanarBounded Lattice.RotToricBounded Lattice.ColorBounded Lattice.RotPlanarValidAll Lattice.RotToricValidAll Lattice.RotToricPathAll Lattice.ColorValidAll.
 Import ListNotations.
 Open Scope Z_scope.
 '''
@@ -30,6 +30,10 @@ SPEC = {
    ('planar_flatten_bijective_upto8_spec', ''), ('planar_rank_upto6_spec', 'planar <= 6x6: rank n-k, logicals independent'),
    ('toric_valid_upto8_spec', 'toric <= 8x8'), ('toric_shapes_upto8_spec', ''), ('toric_flatten_bijective_upto8_spec', ''),
    ('toric_rank_upto6_spec', 'toric <= 6x6: rank n-k (two dependent generators)'),
+   ('rotplanar_valid_all', 'ROTATED PLANAR, ALL SIZES rows, cols >= 3: validate = Ok'), ('rotplanar_valid_all_conditions', ''),
+   ('rottoric_valid_all', 'ROTATED TORIC, ALL EVEN SIZES >= 2: validate = Ok'), ('rottoric_valid_all_conditions', ''),
+   ('color_valid_all', 'COLOUR 6.6.6, ALL ODD SIZES >= 3: validate = Ok'), ('color_valid_all_conditions', ''),
+   ('color_flatten_injective_all', 'colour, all sizes: flatten injective on in-bounds sites, range within [0,n)'), ('color_flatten_range_all', ''),
    ('rotplanar_valid_upto_9', 'rotated planar 3..9'), ('rotplanar_shapes_upto_9', ''), ('rotplanar_rank_upto_9', ''),
    ('rp_flatten_range', 'rotated planar, ALL SIZES: flatten bijection'), ('rp_flatten_injective', ''), ('rp_flatten_surjective', ''),
    ('rp_ctor_ok_iff', 'constructor acceptance = documented range (all argument values)'), ('rp_ctor_type_error_iff', ''),
@@ -67,6 +71,8 @@ SPEC = {
    ('toric_path_syndrome_bit', ''), ('toric_path_weight_le', 'toric, all sizes: weight <= distance'),
    ('toric_path_weight_eq', 'TORIC, ALL SIZES: weight of the path = decoder distance'), ('translation_short', 'toric translation is a shortest one'),
    ('toric_paths_upto7_spec', 'toric <= 7x7 all ordered pairs incl. wrap'), ('toric_plaquette_support_upto7', ''), ('tsyndrome_bit_maps_back', ''),
+   ('rottoric_path_syndrome_all', 'ROTATED TORIC, ALL EVEN SIZES, arbitrary (wrapping) same-type indices: syndrome(path a b) = indicator{a, b} modulo the lattice'),
+   ('rottoric_path_bsp_all', ''), ('rottoric_path_weight_le_all', 'rotated toric, all sizes: weight <= max(|dx|,|dy|)'),
    ('rottoric_paths_upto_8', 'rotated toric even <= 8x8 all ordered pairs'), ('rottoric_paths_wrapping_upto_6', ''),
    ('rt_translation_target', 'rotated toric, ALL SIZES: translation leads from a to b modulo the period'), ('rt_translation_defined', ''),
    ('rt_path_indices_defined', ''),
